@@ -147,7 +147,7 @@ End ConeMain.
 Section ConeLink.
   Variables h r0 r1 round : R.
   Definition cone_sh : R := h / @two ROps - round.
-  Definition cone_u : RV2 := @v2normalize ROps (@v2sub ROps (mkV2 r1 (h / @two ROps)) (mkV2 r0 (- h / @two ROps))).
+  Definition cone_u : RV2 := @v2normalize ROps (@v2sub ROps (mkV2 r1 (h / @two ROps)) (mkV2 r0 (- (h / @two ROps)))).
   Definition cone_n : RV2 := mkV2 (vy cone_u) (- vx cone_u).
   Definition cone_ofs : R := round / vx cone_n.
   Definition cone_sr0 : R := r0 - (1 + vy cone_n) * cone_ofs.
@@ -157,7 +157,7 @@ Section ConeLink.
   Definition cone_obj : RObj3 :=
     mkObj3 (fun p => cone_field cone_sr0 cone_sr1 cone_sh round cone_u cone_n cone_l
                        (mkV2 (@v2len ROps (mkV2 (wx p) (wy p))) (wz p)))
-           (mkBox3 (mkV3 (- cone_r) (- cone_r) (- h / @two ROps)) (mkV3 cone_r cone_r (h / @two ROps))).
+           (mkBox3 (mkV3 (- cone_r) (- cone_r) (- (h / @two ROps))) (mkV3 cone_r cone_r (h / @two ROps))).
 
   Lemma cone_obj_eq o : @k_cone ROps h r0 r1 round = Some o ->
     o = cone_obj /\ 0 < h /\ 0 <= round /\ 2 * round <= h.
@@ -177,7 +177,7 @@ Section ConeLink.
   Proof.
     unfold cone_u, v2normalize, v2muls, v2len, v2len2, v2dot, v2sub; cbn. rewrite two_eq || idtac.
     assert (E : r1 - r0 = r1 - r0) by reflexivity.
-    replace (h / (1 + 1) - - h / (1 + 1)) with h by field.
+    replace (h / (1 + 1) - - (h / (1 + 1))) with h by field.
     fold L. pose proof cone_L_pos. f_equal; field; lra.
   Qed.
   Lemma cone_facts :
